@@ -23,6 +23,9 @@ R = [
  ("r17_writer_matches", "src/link_format.rs", [("            if (c == '\"' || c == '\\\\') && self.0.error.is_none() {", "            if matches!(c, '\"' | '\\\\') && self.0.error.is_none() {")]),
  ("r18_unquote_guard_arm", "src/link_format.rs", [("                    Some(QUOTE_ESCAPE_CHAR) => self.inner.next(),", "                    Some(c) if c == QUOTE_ESCAPE_CHAR => self.inner.next(),")]),
  ("r19_scanner_while_let", "src/link_format.rs", [("                            Some(QUOTE_ESCAPE_CHAR) => {\n                                iter.next();\n                            }", "                            Some(QUOTE_ESCAPE_CHAR) => {\n                                let _skipped = iter.next();\n                            }")]),
+ ("r20_serve_inline_size", "src/block_handler/mod.rs", [("            .chunks(request_block_size)\n", "            .chunks(request_block2.size())\n")]),
+ ("r21_serve_more_binding", "src/block_handler/mod.rs", [("        let has_more_chunks = chunks.next().is_some();", "        let following = chunks.next();\n        let has_more_chunks = following.is_some();")]),
+ ("r22_negotiate_named_reserve", "src/block_handler/mod.rs", [("        let max_non_payload_size =\n            (message_size + BLOCK_OPTIONS_MAX_LENGTH) - total_payload_size;", "        let framing = message_size - total_payload_size;\n        let max_non_payload_size = framing + BLOCK_OPTIONS_MAX_LENGTH;")]),
  ("r15_block_value_u64_shift", "src/block_handler/block_value.rs", [("        let more = scalar >> 3 & 0x1 == 0x1;", "        let more = (scalar & 0x8) != 0;")]),
 ]
 os.makedirs(OUT, exist_ok=True)
